@@ -601,10 +601,10 @@ def directed_slow_steps(ctx, txns, quick: bool, who: int = 0):
             # then a sample of the rest
             fixed = [c for c in mine if (c[1], c[2]) in ((1, nh), (2, nh))]
             rest = [c for c in mine if c not in fixed]
-            mine = fixed + ctx.rng.sample(rest, min(len(rest), 5))
+            mine = fixed + ctx.rng.sample(rest, min(len(rest), 3))
         combos += mine
-    if not quick and len(combos) > 900:
-        combos = ctx.rng.sample(combos, 900)
+    if not quick and len(combos) > 500:
+        combos = ctx.rng.sample(combos, 500)
     for p, j, k in combos:
         # K: step 1 starts the clock actor, step 2 performs the first jump, step 3 the second
         seg = [(me, p), ("K", 2), ("G", 10**6), (me, j), ("K", 10**6), ("H", k), (me, 10**6), ("H", 10**6)]
@@ -678,7 +678,7 @@ def run(ctx) -> None:
             for who in range(len(txns)):
                 if txns[who]["kind"] == "append":
                     runs += list(directed_slow_steps(ctx, txns, quick, who))
-        runs += list(random_two_runs(ctx, txns, 12 if quick else 150))
+        runs += list(random_two_runs(ctx, txns, 8 if quick else 120))
         for k in range(10 if quick else 200):
             seed = ctx.rng.randrange(1 << 30)
             runs.append(([("random", seed)], run_case(ctx, txns, lambda sc, seed=seed: S.random_chooser(_r.Random(seed), 0.4), 5000)))
